@@ -336,6 +336,48 @@ CHECKS["C10"] = {
     "level_note": "anisotropy below the stated resolution, directions outside the 4n tested and keys outside the pool are not observable",
 }
 
+# ---------------------------------------------------------------------------
+# workloads added in the sixth round of seeded changes (state carried between calls,
+# fingerprint collisions, steered near-boundary values); appended to the evidence rules
+_EXTRA = {
+    "C01": " Sixth round: signatures whose salt is forced (RNG hook) to the extreme (salt, message) pairs found by C14's search, so "
+           "signer and verifier hash a stream with unusually many rejected chunks (counter forced_salt_taken); call histories in fresh "
+           "threads mixing both parameter sets, several keys, and keys / signatures / public keys passing through their encodings.",
+    "C02": " Sixth round: fingerprint-colliding call sequences (collide.rs: byte sum/xor, both halves of std's DefaultHasher fed either "
+           "way, FNV-1a, CRC-32, Adler-32, djb2, prefix/suffix, coefficient sums): pairs of different crafted public keys with a valid "
+           "signature each, verified A,B,A,cross,B on one thread, and pairs of different messages under one salt (valid for the first, "
+           "rejected for the second); NTT-domain boundary triples (s2 = b, s1 = a constants, h = (c-a)/b, salts searched so that NTT(c) "
+           "holds a + b v at some index) for v in {0,1,2,q-1,q-2,(q+-1)/2}, b in {+-1,+-2}, a in {0,+-1,+-2}. Replay files of sequence "
+           "findings carry the triple verified just before.",
+    "C04": " Sixth round: call histories in fresh threads (512 then 1024, 1024 then 512, decode then generate, sign then generate, "
+           "alternating); every key generated inside a history gets all oracles.",
+    "C05": " Sixth round: pairs of different valid secret keys (lattice variants F + c x^j f) whose encodings agree in length and byte "
+           "sum (preferably also xor; also across public keys), decoded A,B,A,B,B,A on one thread; every result must be the key offered.",
+    "C06": " Sixth round: the reserved field value inside an otherwise valid NTRU basis (g' = g + c x^j f with G' = G + c x^j F, and the "
+           "analogue for f), constructed from generated keys and re-checked by the harness; checksum-preserving edits (byte swap, +1/-1 on "
+           "two bytes, the same bit in two bytes, rotation) offered right after the valid string on the same thread.",
+    "C07": " Sixth round: several negative zeros in one string (every subset of positions for n <= 6; pairs, triples, quadruples, all but "
+           "the last and all at production sizes).",
+    "C08": " Sixth round: one long-lived thread signing Falcon-1024 for the whole leg (42 000 signatures quick, 400 000 thorough); its "
+           "history is checked alone and merged with all others.",
+    "C11": " Sixth round: forward transforms of sparse inputs (monomials c x^k and two-term polynomials, c over all residues incl. "
+           "boundary values) against a linearity oracle built from the forward impulse responses; call histories of (operation, size) "
+           "in fresh threads (inverse before any forward transform, products first at large sizes).",
+    "C13": " Sixth round: call histories in fresh threads: split, inverse(forward), merge and product at random sizes in random order, "
+           "in particular split before the first inverse at that size; each operation has its own oracle.",
+    "C14": " Sixth round: call sequences on one thread (a permutation, an extension, a truncation of the previous input, the previous "
+           "input again) and fingerprint-colliding pairs of equal length (1.2e6 candidates per quick run searched for collisions in byte "
+           "sum/xor, DefaultHasher halves, FNV-1a, CRC-32, Adler-32, djb2, prefix/suffix), hashed A,B,A.",
+    "C15": " Sixth round: the fingerprint covers the bit patterns of the tree leaves; two more child processes run under a restricted "
+           "CPU set (taskset: CPU 0; CPUs 0-2).",
+    "C17": " Sixth round: near ties at production amplitude: (F,G) = K (f,g) + R with K as large as the 2^24 domain allows and the small "
+           "pair R steered (greedy digit-by-digit adjustment of far-away entries plus a meet-in-the-middle finish, all in double "
+           "precision on small numbers) so that ONE coefficient of the exact quotient is at 1/2 -+ delta, delta in {2e-10 .. 1.6e-8}, "
+           "every other coefficient at least 1e-4 away from a tie; n = 512 and 1024, 1500 inputs per quick run.",
+}
+for _k, _v in _EXTRA.items():
+    CHECKS[_k]["rule"] += _v
+
 NOT_APPLICABLE = {}
 
 ENGINES = [
